@@ -30,6 +30,11 @@ pub(crate) fn svc_literal(port: u16, priority: u16, weight: u16, host_ttl: u32, 
     }
 }
 
+pub(crate) fn svc_add_addr_and_subtype(s: &mut ServiceInfo, a: IpAddr, sub: &str) {
+    s.addresses.insert(a);
+    s.sub_domain = Some(String::from(sub));
+}
+
 /// `escape_instance_name` is private to service_info; the encoder harness in dns_parser reaches it through this.
 pub(crate) fn escape_for_harness(s: &str) -> String {
     escape_instance_name(s)
